@@ -309,7 +309,15 @@ def check(ctx):
     for t, v, s, k in iter_stores(lp):
         if isinstance(t, ast.Name) and v is not None and bname and canon(v) in (f"{bname}.copy()", bname):
             bvar = t.id
-    okb = bvar is not None and any(f"({bvar} is None)" in x and "size" in x or f"({bvar} is None)" in x and "len(" in x for x in g)
+    okb = False
+    if bvar is not None:
+        from ..terms import disjuncts
+
+        for t, pol in guard_of(prog, poll, gcall):
+            ds = {canon(c, neg=not p_) for c, p_ in disjuncts(t, pol)}
+            allowed = {f"({bvar} is None)", f"(0 == {bvar}.size)", f"(0 == len({bvar}))", f"({bvar}.size < 1)", f"(len({bvar}) < 1)"}
+            if f"({bvar} is None)" in ds and ds <= allowed:
+                okb = True
     ctx.check(okb, poll, gcall, f"basis generated only while {bvar} is None or empty, then kept", "the direction basis can be regenerated in the middle of a poll: directions need not form one positive spanning set", construct=f"basis generation guard {g[-1:] }")
     ctx.assume("numpy.random.randint(lo, hi) draws integers in [lo, hi-1]; permutation/transposition/row scaling preserve rank")
     ctx.assume("a strictly triangular matrix plus a diagonal with non-zero entries is non-singular (determinant = product of the diagonal)")
